@@ -46,6 +46,8 @@ def small_configs():
     for p0, p1 in ((2, 2), (2, 1)):
         out.append({"mgr": "swapper", "shape": [5, 4, 3], "p": [p0, p1], "groups": DRIVER_GROUPS, "procs": [[p0, p1], p0, p1],
                     "start": "mode_solve", "names": ["mode_solve", "v_parallel_1d", "poloidal"], "dtype": "complex"})
+    out.append({"mgr": "swapper", "shape": [5, 4, 5], "p": [2, 2], "groups": [{'A': [0, 1, 2], 'B': [2, 1, 0], 'C': [2, 0, 1]}, {'D': [0, 2, 1]}], "procs": [[2, 2], 2],
+                "start": "A", "names": ["D", "C", "A"], "dtype": "float"})       # D -> C needs a 3-step route
     return out
 
 
@@ -55,7 +57,7 @@ def gen_cases(tier, seed):
     cfgs = small_configs()
     for ci, cfg in enumerate(cfgs):
         for save in (True, False):
-            if not save and tier == "quick" and ci not in (0, 3):
+            if not save and tier == "quick" and ci not in (0, 3, 5):
                 continue
             Ls = L if save else min(L, 4)
             if tier == "quick":
